@@ -532,6 +532,19 @@ MIN_OBJECTIVES = [
 MAX_OBJECTIVES = ["MaximizeResourceUtilization", "TasksStartLatest", "MaximizeMaxBufferLevel", "MaximizeIndicator"]
 
 
+def _expr_tasks(ast):
+    if not isinstance(ast, dict):
+        return set()
+    if ast.get("op") == "var":
+        return {ast["task"]}
+    out = set()
+    for k in ("a", "b"):
+        out |= _expr_tasks(ast.get(k))
+    for x in ast.get("args") or []:
+        out |= _expr_tasks(x)
+    return out
+
+
 def gen_objective(g, ty, spec, H, idx):
     names = [t["name"] for t in spec["tasks"]]
     busy = assigned_resources(spec)
@@ -557,9 +570,22 @@ def gen_objective(g, ty, spec, H, idx):
             return None
         o["buffer"] = g.pick([b["name"] for b in spec["buffers"]])
     elif ty in ("MinimizeIndicator", "MaximizeIndicator"):
-        if not spec["indicators"]:
+        if H is None:
+            return None  # a user expression is not bounded without a horizon
+        opt = {t["name"] for t in spec["tasks"] if t["optional"]}
+
+        def parking_free(i):
+            # the value must not depend on where an unscheduled optional task is parked (an arbitrary instant)
+            if i["type"] == "FromMathExpression":
+                return not (_expr_tasks(i["expr"]) & opt)
+            if i["type"] == "MaximumLateness":
+                return not (set(i.get("tasks") or names) & opt)
+            return True
+
+        pool = [i["id"] for i in spec["indicators"] if parking_free(i)]
+        if not pool:
             return None
-        o["ind"] = g.pick([i["id"] for i in spec["indicators"]])
+        o["ind"] = g.pick(pool)
         o.setdefault("weight", 1)
     return o
 
